@@ -135,6 +135,14 @@ def generate(tier, rng):
     # values larger than 64 KiB through the blocking writer
     out.append("IOW max=%d vals=%s,%s,%s sink=-" % (300000, item(b"\x01"), item(bigp), item(b"\x02\x03")))
     out.append("IOW max=%d vals=%s,%s sink=-" % (300000, item(huge), item(b"\x02")))
+    # payloads of exactly 65536 and 131072 bytes (a reader that fills its buffer in 64 KiB steps computes the last step from a remainder)
+    for tot in (65536, 131072):
+        inner = tot - (3 if tot - 3 < 65536 else 5)
+        pl = bytes((i * 3 + 1) & 0xff for i in range(inner))
+        fx = [good(pl), good(b"\x09")]
+        assert len(fx[0][0]) == tot
+        out.append(reader_line("IOR", 300000, fx, None, "sched", [300000]))
+        out.append(reader_line("IOR", 300000, fx, None, "sched", [4, 65536, 1, 300000]))
     return out
 
 def _kv(line, key):
